@@ -1,4 +1,4 @@
-From Urwid Require Import Canvas CanvasHeap.
+From Urwid Require Import Canvas CanvasHeap CanvasBytes.
 From Coq Require Extraction ExtrOcamlBasic.
 Extraction Language OCaml.
-Extraction "model.ml" CanvasHeap.run_case.
+Extraction "model.ml" CanvasBytes.run_case.
